@@ -10,10 +10,12 @@ import (
 	"golang.org/x/tools/go/packages"
 	"os"
 	"path/filepath"
+	"runtime"
 	"runtime/debug"
 	"sort"
 	"strconv"
 	"strings"
+	"time"
 )
 
 type propCheck struct {
@@ -51,6 +53,24 @@ func main() {
 		}
 		return
 	}
+	// watchdog: an analysis that does not terminate (or eats the machine) is an undecided check, not a hung one
+	go func() {
+		limit := 20 * time.Minute
+		if *tier == "thorough" {
+			limit = 90 * time.Minute
+		}
+		start := time.Now()
+		for {
+			time.Sleep(5 * time.Second)
+			var ms runtime.MemStats
+			runtime.ReadMemStats(&ms)
+			if time.Since(start) > limit || ms.Sys > 24<<30 {
+				fmt.Printf("UNDECIDED property=%s the analyser did not finish within its budget (%.0f s, %d MB): no verdict\n", *prop, time.Since(start).Seconds(), ms.Sys>>20)
+				cleanupScratch()
+				os.Exit(2)
+			}
+		}
+	}()
 	seed := 0
 	if s := os.Getenv("VERIF_SEED"); s != "" {
 		if v, err := strconv.Atoi(s); err == nil {
